@@ -188,8 +188,17 @@ func checkC04(c C04Case) *Failure {
 		if err != nil {
 			return failf("B^T.A^T failed for %v, %v: %v", sb, sa, err)
 		}
-		if f := sameTensors("(A.B)^T vs B^T.A^T", yt, btat, true); f != nil {
+		// B^T.A^T adds the same products (possibly in another order): compared through its
+		// transpose with the defined product, to within the rounding of the sums of magnitudes
+		back, err := btat.Transpose()
+		if err != nil {
+			return failf("Transpose of B^T.A^T failed: %v", err)
+		}
+		if f := compareTensor("(B^T.A^T)^T vs the defined A.B", back, want, cmpTol, scale); f != nil {
 			return f
+		}
+		if ys, bs := yt.Shape(), btat.Shape(); !ref.EqShape(ys, bs) {
+			return failf("(A.B)^T has shape %v, B^T.A^T %v", ys, bs)
 		}
 	case "dot":
 		b := leaves[n.In[1]]
@@ -201,7 +210,9 @@ func checkC04(c C04Case) *Failure {
 		if err != nil {
 			return failf("SumAlong(last)(a*b): %v", err)
 		}
-		if f := sameTensors("Dot(a,b) vs SumAlong(last)(a*b)", y, s, true); f != nil {
+		// (both are sums of the same products, possibly in another order: they agree to within
+		// the rounding of the sum of the magnitudes of the terms)
+		if f := compareTensor("SumAlong(last)(a*b) vs the defined Dot(a,b)", s, want, cmpTol, scale); f != nil {
 			return f
 		}
 	}
